@@ -64,14 +64,16 @@ type genState struct {
 	podInWindow bool         // a pod was written inside the current hold window
 	portsSet map[string]bool
 	mcs      map[string]bool
+	perSlicePorts bool
 }
 
 var (
 	podIPs    = []string{"10.0.0.1", "10.0.0.2", "10.0.0.3"}
-	labelSets = [][]string{{"app=a"}, {"app=b"}, {"app=a", "version=v1"}, {"app=a", "version=v2"}, {"app=a", "security.istio.io/tlsMode=istio"}, nil}
+	labelSets = [][]string{{"app=a"}, {"app=b"}, {"app=a", "version=v1"}, {"app=a", "version=v2"}, {"app=a", "security.istio.io/tlsMode=istio"}, nil,
+		{"app=a", "@amb=enabled"}} // "@amb": the ambient redirection ANNOTATION (the annotation arm of labelFilter)
 	selSets   = [][]string{{"app=a"}, {"app=b"}, {"app=a", "version=v1"}, nil}
 	portSets  = [][]string{{"http:80"}, {"http:80", "tcp:90"}, {"tcp:90"}}
-	epPorts   = [][]string{{"http:8080"}, {"http:8080", "tcp:9090"}, {"tcp:9090"}}
+	epPorts   = [][]string{{"http:8080"}, {"http:8080", "tcp:9090"}, {"tcp:9090"}, {"http:9090"}, {"tcp:8080"}}
 )
 
 func (g *genState) emit(tok ...string) { g.out.Line(tok...) }
@@ -106,6 +108,11 @@ func (g *genState) nodeLine(n *gNode) { g.emit("node", n.name, wire.Enc(n.region
 
 func (g *genState) slicePorts(s *gSlice) []string {
 	k := s.ns + "/" + s.svc
+	if g.perSlicePorts {
+		// sibling slices of one Service with different port lists (same name / other number, same number / other name:
+		// endpointSliceCache.get dedups on (address, port NAME))
+		k = s.ns + "/" + s.svc + "/" + s.name
+	}
 	if !g.portsSet[k] {
 		g.portsSet[k] = true
 		g.ports[k] = wire.Pick(g.r, epPorts)
@@ -229,9 +236,19 @@ func (g *genState) opPod() {
 		return
 	}
 	g.podInWindow = g.held
-	if p.phase == "F" && r.Chance(3, 4) {
+	if p.phase == "F" && r.Chance(2, 3) {
 		delete(g.pods, k)
 		g.emit("delpod", ns, name)
+		return
+	}
+	if p.phase == "F" {
+		// a Failed pod comes back (restartPolicy): the informer sees an ADD again
+		p.phase = "R"
+		if p.ip == "" {
+			p.ip = g.pickIP(name)
+		}
+		p.ready = r.Chance(1, 2)
+		g.podLine(p)
 		return
 	}
 	switch r.Intn(12) {
@@ -258,6 +275,9 @@ func (g *genState) opPod() {
 		}
 	case 7:
 		p.ip = g.pickIP(name) // IP change
+		if r.Chance(1, 3) {
+			p.ready = false // ... and not ready any more, in one write (deleteIP then looks under the NEW IP)
+		}
 	case 8:
 		if p.node == "" {
 			p.node = wire.Pick(r, []string{"k1", "k2"})
@@ -289,7 +309,7 @@ func (g *genState) opSvc() {
 	if s == nil {
 		s = &gSvc{ns: ns, name: name, kind: "cip", ports: wire.Pick(r, portSets), sel: wire.Pick(r, selSets)}
 		if r.Chance(1, 4) {
-			s.kind = wire.Pick(r, []string{"hl", "ext"})
+			s.kind = wire.Pick(r, []string{"hl", "ext", "lb"})
 		}
 		g.svcs[k] = s
 	} else {
@@ -299,7 +319,7 @@ func (g *genState) opSvc() {
 		case 1:
 			s.sel = wire.Pick(r, selSets)
 		case 2:
-			s.kind = wire.Pick(r, []string{"cip", "hl", "ext"})
+			s.kind = wire.Pick(r, []string{"cip", "hl", "ext", "lb"})
 		default:
 		}
 	}
@@ -307,8 +327,8 @@ func (g *genState) opSvc() {
 		s.flags = wire.Pick(r, [][]string{{"drain"}, {"td"}, {"drain", "td"}, nil})
 	}
 	// exported to nobody (annotation networking.istio.io/exportTo: "~") and the service-accounts annotation, set and cleared again
-	for _, fl := range []string{"x", "sa"} {
-		if g.wide && r.Chance(1, 6) {
+	for _, fl := range []string{"x", "sa", "std", "csa", "eip", "nl"} {
+		if g.wide && r.Chance(1, 8) {
 			if has(s.flags, fl) {
 				f := []string{}
 				for _, x := range s.flags {
@@ -347,7 +367,7 @@ func (g *genState) opSlice() {
 		}
 		return
 	}
-	name := svc + "-" + wire.Pick(r, []string{"s1", "s2"})
+	name := svc + "-" + wire.Pick(r, []string{"s1", "s2", "s1", "s2", "s3"})
 	k := ns + "/" + name
 	s := g.slices[k]
 	if s != nil && r.Chance(1, 5) {
@@ -365,7 +385,7 @@ func (g *genState) opSlice() {
 		}
 		g.slices[k] = s
 	}
-	if s.svc != "" && !g.held && r.Chance(1, 40) {
+	if s.svc != "" && !g.held && r.Chance(1, 15) {
 		// the service-name label of an existing slice is edited (legal, never done by the slice controller)
 		if s.svc == "a" {
 			s.svc = "b"
@@ -426,7 +446,7 @@ func (g *genState) refresh(e gEp, ns string) gEp { return e }
 func (g *genState) opNs() {
 	r := g.r
 	name := wire.Pick(r, g.nss)
-	if _, ok := g.nsObj[name]; ok && r.Chance(1, 5) {
+	if td, ok := g.nsObj[name]; ok && (r.Chance(1, 5) || (td == "close" && r.Chance(1, 2))) {
 		delete(g.nsObj, name)
 		g.emit("delns", name)
 		return
@@ -478,9 +498,10 @@ func gen(stream string, seed uint64, n int, outp string) {
 		}
 		out.Line("case", strconv.Itoa(c), stream)
 		g.wide = r.Chance(1, 3)
+		g.perSlicePorts = r.Chance(1, 4)
 		g.noHold = r.Chance(3, 5) // most histories are handled write by write (the class of the theorems)
 		withNodes := r.Chance(1, 3)
-		g.withNs = r.Chance(1, 4)
+		g.withNs = r.Chance(1, 3)
 		length := 2 + r.Intn(14)
 		if r.Chance(1, 10) {
 			length += 15
@@ -509,7 +530,7 @@ func gen(stream string, seed uint64, n int, outp string) {
 				}
 			case x < 17:
 				g.opSlice()
-			case x == 17:
+			case x == 17 || (x == 16 && g.withNs):
 				if g.withNs {
 					g.opNs()
 				} else {
